@@ -343,7 +343,8 @@ impl Out {
     }
     fn violation(&mut self, kind: &str, detail: String, case: &str) {
         self.violations_total += 1;
-        if self.violations.len() < 40 {
+        let same = self.violations.iter().filter(|(k, _, _)| k == kind).count();
+        if same < 4 && self.violations.len() < 60 {
             self.violations
                 .push((kind.to_owned(), detail, case.to_owned()));
         }
